@@ -1,5 +1,6 @@
 import PercevalModel.Proto
 import PercevalModel.Model.C08
+import PercevalModel.Model.C08Glue
 import PercevalModel.Found.SM
 import Mathlib.Algebra.Order.Field.Rat
 
@@ -14,6 +15,9 @@ import Mathlib.Algebra.Order.Field.Rat
   * `{"op":"sim","m":m|null,"dist":[[[…],q],…],"dets":[…],"minph":f|null,"minp":q}`
   * `{"op":"sample","state":[…],"dets":[…],"minp":q,"fixed":b}` — law of `simulate_detectors_sample`
     (`fixed:false` = the pinned tree, which raises on an unset detector in a mixed list)
+  * `{"op":"tail","m":m,"dist":[…],"dets":[…]|null,"minph":f|null,"minp":q,"heralds":[[k,v],…]}` — tail of
+    `Simulator.probs_svd` on the theoretical distribution `dist`: whether the heralds mask is used, the
+    herald-selected result (before the final normalize(), heralded modes kept) and `phys_perf`
   A detector is `null`, `{"w":w|null,"max":k|null}` or `{"bs":l,"r":q}`.
 -/
 
@@ -99,6 +103,28 @@ def handleReq (j : Json) : Except String Json := do
     let a ← simulateChecked minP m dist ds mp
     return Json.mkObj [("type", typeStr (detectionType ds)), ("dist", sdistToJson a.1),
       ("perf", ratToJson a.2)]
+  else if op == "tail" then
+    let m ← optNat j "m"
+    let minP ← ratOfJson (← j.getObjVal? "minp")
+    let mp ← optNat j "minph"
+    let ds ← match j.getObjVal? "dets" with
+      | .ok .null => pure []
+      | .ok v => parseDets v
+      | .error _ => throw "missing field dets"
+    let hs ← (← arrOf j "heralds").toList.mapM fun h => do
+      match h with
+      | .arr #[a, b] => return ((← a.getNat?), (← b.getNat?))
+      | _ => throw "bad herald"
+    let dist ← (← arrOf j "dist").toList.mapM fun e => do
+      match e with
+      | .arr #[s, p] => return ((← natList s), (← ratOfJson p))
+      | _ => throw "bad dist entry"
+    -- `if detectors:` — an empty / absent list skips simulate_detectors (and its length assertion)
+    if !ds.isEmpty && m ≠ some ds.length then throw "AssertionError"
+    let ok ← checkHeralds hs ds
+    let a := probsTailCoded minP dist ds mp hs
+    return Json.mkObj [("mask", toJson (useMask hs ds)), ("compatible", toJson ok),
+      ("dist", sdistToJson a.1), ("perf", ratToJson a.2)]
   else if op == "sample" then
     let minP ← ratOfJson (← j.getObjVal? "minp")
     let ds ← parseDets (← j.getObjVal? "dets")
